@@ -91,6 +91,241 @@ Section Reset.
           end).
   Proof. reflexivity. Qed.
 
+
+  (** ** unfolding equations of the classes added to the fragment (C04 extension) *)
+  Lemma step_series_eq f start v stp length count :
+    step (S f) (PSeries start v stp length count) =
+      (let '(ol, length') := value f length in
+          match ol with
+          | Yield vlen =>
+              match cmp OGe (VInt count) vlen with
+              | Yield true => (Stop, PSeries start v stp length' count)
+              | Yield false =>
+                  let '(os, stp') := value f stp in
+                  match os with
+                  | Yield vstep =>
+                      match Val.binop OAdd v vstep with
+                      | Yield v' => (Yield v, PSeries start v' stp' length' (count + 1))
+                      | o => (o, PSeries start v stp' length' count)
+                      end
+                  | _ => (os, PSeries start v stp' length' count)
+                  end
+              | oc => (ocast oc, PSeries start v stp length' count)
+              end
+          | _ => (ol, PSeries start v stp length' count)
+          end).
+  Proof. reflexivity. Qed.
+
+  Lemma step_range_eq f start end_ stp v :
+    step (S f) (PRange start end_ stp v) =
+      (let '(oe, end') := value f end_ in
+          match oe with
+          | Yield vend =>
+              let '(os, stp') := value f stp in
+              match os with
+              | Yield vstep =>
+                  let st := PRange start end' stp' v in
+                  let t1 := obind (cmp OGt vstep (VInt 0)) (fun b => if b then cmp OGe v vend else Yield false) in
+                  match t1 with
+                  | Yield true => (Stop, st)
+                  | Yield false =>
+                      let t2 := obind (cmp OLt vstep (VInt 0)) (fun b => if b then cmp OLe v vend else Yield false) in
+                      match t2 with
+                      | Yield true => (Stop, st)
+                      | Yield false =>
+                          match Val.binop OAdd v vstep with
+                          | Yield v' => (Yield v, PRange start end' stp' v')
+                          | o => (o, st)
+                          end
+                      | oc => (ocast oc, st)
+                      end
+                  | oc => (ocast oc, st)
+                  end
+              | _ => (os, PRange start end' stp' v)
+              end
+          | _ => (oe, PRange start end' stp v)
+          end).
+  Proof. reflexivity. Qed.
+
+  Lemma step_geom_eq f start v multiply length count :
+    step (S f) (PGeom start v multiply length count) =
+      (match cmp OGe (VInt count) length with
+          | Yield true => (Stop, PGeom start v multiply length count)
+          | Yield false =>
+              let '(om, multiply') := value f multiply in
+              match om with
+              | Yield vm =>
+                  match Val.binop OMul v vm with
+                  | Yield v' => (Yield v, PGeom start v' multiply' length (count + 1))
+                  | o => (o, PGeom start v multiply' length count)
+                  end
+              | _ => (om, PGeom start v multiply' length count)
+              end
+          | oc => (ocast oc, PGeom start v multiply length count)
+          end).
+  Proof. reflexivity. Qed.
+
+  Lemma step_impulse_eq f period pos :
+    step (S f) (PImpulse period pos) =
+      (let '(op_, period') := value f period in
+          match op_ with
+          | Yield vp =>
+              match cmp OGe (VInt pos) vp with
+              | Yield b =>
+                  let pos1 := if b then 0 else pos in
+                  (Yield (VInt (if pos1 =? 0 then 1 else 0)), PImpulse period' (pos1 + 1))
+              | oc => (ocast oc, PImpulse period' pos)
+              end
+          | _ => (op_, PImpulse period' pos)
+          end).
+  Proof. reflexivity. Qed.
+
+  Lemma step_loop_eq f pattern count pos loop_index read_all values :
+    step (S f) (PLoop pattern count pos loop_index read_all values) =
+      (let '(err, pattern1, read_all1, values1) :=
+            if read_all then (None, pattern, true, values)
+            else
+              let '(o, pattern') := anext f pattern in
+              match o with
+              | Yield v => (None, pattern', false, values ++ [v])
+              | Stop => (None, pattern', true, values)
+              | _ => (Some o, pattern', false, values)
+              end in
+          match err with
+          | Some o => (o, PLoop pattern1 count pos loop_index read_all1 values1)
+          | None =>
+              let wrap := read_all1 && (pos >=? zlen values1) in
+              let st0 := PLoop pattern1 count pos loop_index read_all1 values1 in
+              let go (pos2 loop_index2 : Z) :=
+                match py_index values1 pos2 with
+                | Some v => (Yield v, PLoop pattern1 count (pos2 + 1) loop_index2 read_all1 values1)
+                | None => (Raise IndexError, PLoop pattern1 count pos2 loop_index2 read_all1 values1)
+                end in
+              if wrap then
+                match obind (Val.binop OSub count (VInt 1)) (fun c1 => cmp OGe (VInt loop_index) c1) with
+                | Yield true => (Stop, st0)
+                | Yield false => if zlen values1 =? 0 then (Stop, st0) else go 0 (loop_index + 1)
+                | oc => (ocast oc, st0)
+                end
+              else go pos loop_index
+          end).
+  Proof. reflexivity. Qed.
+
+  Lemma step_pingpong_eq f pattern count values pos dir rpos :
+    step (S f) (PPingPong pattern count values pos dir rpos) =
+      (let p := PPingPong pattern count values pos dir rpos in
+       match obind (if pos =? 1 then cmp OGe (VInt rpos) count else Yield false) (fun b => Yield (b || (pos >=? zlen values))) with
+          | Yield true => (Stop, p)
+          | Yield false =>
+              match py_index values pos with
+              | None => (Raise IndexError, p)
+              | Some v =>
+                  let pos1 := pos + dir in
+                  if pos1 =? zlen values - 1 then (Yield v, PPingPong pattern count values pos1 (-1) rpos)
+                  else if pos1 =? 0 then (Yield v, PPingPong pattern count values pos1 1 (rpos + 1))
+                  else (Yield v, PPingPong pattern count values pos1 dir rpos)
+              end
+          | oc => (ocast oc, p)
+          end).
+  Proof. reflexivity. Qed.
+
+  Lemma step_reverse_eq f input values :
+    step (S f) (PReverse input values) =
+      match values with
+      | v :: r => (Yield v, PReverse input r)
+      | [] => (Stop, PReverse input values)
+      end.
+  Proof. reflexivity. Qed.
+
+  Lemma step_changed_eq f source current :
+    step (S f) (PChanged source current) =
+      (let '(o, source') := value f source in
+          match o with
+          | Yield nxt => (Yield (VInt (if py_eq nxt current then 0 else 1)), PChanged source' nxt)
+          | _ => (o, PChanged source' current)
+          end).
+  Proof. reflexivity. Qed.
+
+  Lemma step_diff_eq f source current :
+    step (S f) (PDiff source current) =
+      (let '(o, source') := value f source in
+          match o with
+          | Yield nxt =>
+              if is_none current || is_none nxt then (Yield VNone, PDiff source' nxt)
+              else match Val.binop OSub nxt current with
+                   | Yield d => (Yield d, PDiff source' nxt)
+                   | oe => (oe, PDiff source' current)
+                   end
+          | _ => (o, PDiff source' current)
+          end).
+  Proof. reflexivity. Qed.
+
+  Lemma step_wrap_eq f pattern mn mx :
+    step (S f) (PWrap pattern mn mx) =
+      (let '(o, pattern') := anext f pattern in
+          match o with
+          | Yield v => (obind (wrap_up f v mn mx) (fun v1 => wrap_down f v1 mn mx), PWrap pattern' mn mx)
+          | _ => (o, PWrap pattern' mn mx)
+          end).
+  Proof. reflexivity. Qed.
+
+  Lemma step_anyref_eq f pattern :
+    step (S f) (PRef pattern) = (let '(o, pattern') := anext f pattern in (o, PRef pattern')).
+  Proof. reflexivity. Qed.
+
+  Lemma step_collapse_eq f input :
+    step (S f) (PCollapse input) =
+      (let '(o, input') := value f input in
+          match o with
+          | Yield VNone => step f (PCollapse input')
+          | _ => (o, PCollapse input')
+          end).
+  Proof. reflexivity. Qed.
+
+  Lemma step_norepeats_eq f input v :
+    step (S f) (PNoRepeats input v) =
+      (let '(o, input') := value f input in
+          match o with
+          | Yield rv =>
+              if py_eq rv v || py_eq rv (VInt MAXSIZE) then step f (PNoRepeats input' v)
+              else (Yield rv, PNoRepeats input' rv)
+          | _ => (o, PNoRepeats input' v)
+          end).
+  Proof. reflexivity. Qed.
+
+  Lemma step_subsequence_eq f pattern offset length pos values :
+    step (S f) (PSubsequence pattern offset length pos values) =
+      (let '(oo, offset') := value f offset in
+          match oo with
+          | Yield voff =>
+              let '(ol, length') := value f length in
+              match ol with
+              | Yield vlen =>
+                  let st := PSubsequence pattern offset' length' pos values in
+                  match cmp OGe (VInt pos) vlen with
+                  | Yield true => (Stop, st)
+                  | Yield false =>
+                      match int_of voff with
+                      | Some off =>
+                          let '(ou, values', pattern') := pull_until (anext f) f pattern values (pos + off) in
+                          match ou with
+                          | Yield _ =>
+                              match py_index values' (off + pos) with
+                              | Some v => (Yield v, PSubsequence pattern' offset' length' (pos + 1) values')
+                              | None => (Raise IndexError, PSubsequence pattern' offset' length' pos values')
+                              end
+                          | _ => (ocast ou, PSubsequence pattern' offset' length' pos values')
+                          end
+                      | None => ((if is_none voff then Raise TypeError else Inexact), st)
+                      end
+                  | oc => (ocast oc, st)
+                  end
+              | _ => (ol, PSubsequence pattern offset' length' pos values)
+              end
+          | _ => (oo, PSubsequence pattern offset' length pos values)
+          end).
+  Proof. reflexivity. Qed.
+
   Notation fld f a k := (obind (reset_field (reset f) a) k).
 
   Lemma reset_abs_eq f a : reset (S f) (PAbs a) = fld f a (fun x => Yield (PAbs x)).
@@ -113,6 +348,44 @@ Section Reset.
   Proof. reflexivity. Qed.
   Lemma reset_stutter_eq f p c cc pos v :
     reset (S f) (PStutter p c cc pos v) = fld f p (fun p' => fld f c (fun c' => Yield (PStutter p' c' (VInt 0) 0 (VInt 0)))).
+  Proof. reflexivity. Qed.
+
+  Lemma reset_series_eq f start v stp length count :
+    reset (S f) (PSeries start v stp length count) = fld f stp (fun s' => fld f length (fun l' => Yield (PSeries start start s' l' 0))).
+  Proof. reflexivity. Qed.
+  Lemma reset_range_eq f start end_ stp v :
+    reset (S f) (PRange start end_ stp v) = fld f end_ (fun e' => fld f stp (fun s' => Yield (PRange start e' s' start))).
+  Proof. reflexivity. Qed.
+  Lemma reset_geom_eq f start v m length count :
+    reset (S f) (PGeom start v m length count) = fld f m (fun m' => Yield (PGeom start start m' length 0)).
+  Proof. reflexivity. Qed.
+  Lemma reset_impulse_eq f period pos : reset (S f) (PImpulse period pos) = fld f period (fun x => Yield (PImpulse x 0)).
+  Proof. reflexivity. Qed.
+  Lemma reset_loop_eq f pattern count pos li ra values :
+    reset (S f) (PLoop pattern count pos li ra values) = fld f pattern (fun x => Yield (PLoop x count 0 0 false [])).
+  Proof. reflexivity. Qed.
+  Lemma reset_pingpong_any f pattern count values pos dir rpos values' pos' dir' rpos' :
+    reset f (PPingPong pattern count values pos dir rpos) = reset f (PPingPong pattern count values' pos' dir' rpos').
+  Proof. destruct f; reflexivity. Qed.
+  Lemma reset_reverse_any f input values values' : reset f (PReverse input values) = reset f (PReverse input values').
+  Proof. destruct f; reflexivity. Qed.
+  Lemma reset_changed_eq f source current :
+    reset (S f) (PChanged source current) =
+      fld f source (fun s1 => let '(o, s2) := value f s1 in obind o (fun v => Yield (PChanged s2 v))).
+  Proof. reflexivity. Qed.
+  Lemma reset_diff_eq f source current :
+    reset (S f) (PDiff source current) =
+      fld f source (fun s1 => let '(o, s2) := value f s1 in obind o (fun v => Yield (PDiff s2 v))).
+  Proof. reflexivity. Qed.
+  Lemma reset_wrap_eq f pattern mn mx : reset (S f) (PWrap pattern mn mx) = fld f pattern (fun x => Yield (PWrap x mn mx)).
+  Proof. reflexivity. Qed.
+  Lemma reset_collapse_eq f input : reset (S f) (PCollapse input) = fld f input (fun x => Yield (PCollapse x)).
+  Proof. reflexivity. Qed.
+  Lemma reset_norepeats_eq f input v : reset (S f) (PNoRepeats input v) = fld f input (fun x => Yield (PNoRepeats x (VInt MAXSIZE))).
+  Proof. reflexivity. Qed.
+  Lemma reset_subsequence_eq f pattern offset length pos values :
+    reset (S f) (PSubsequence pattern offset length pos values) =
+      fld f pattern (fun p' => fld f offset (fun o' => fld f length (fun l' => Yield (PSubsequence p' o' l' 0 [])))).
   Proof. reflexivity. Qed.
 
   (** ** leaves: classes whose state is counters only (scalar parameters) *)
@@ -168,6 +441,132 @@ Section Reset.
       destruct (pos + 1 >=? zlen l); reflexivity.
   Qed.
 
+  (** ** classes whose state is counters only, with scalar parameters: what PReset may restart *)
+  Definition flat (p : pat) : bool :=
+    match p with
+    | PConstant _ => true
+    | PSequence (AL l) (AV _) _ _ => scalars l
+    | PSeries _ _ (AV _) (AV _) _ => true
+    | PRange _ (AV _) (AV _) _ => true
+    | PGeom _ _ (AV _) _ _ => true
+    | PImpulse (AV _) _ => true
+    | _ => false
+    end.
+
+  Ltac flat_shape Hf :=
+    repeat match type of Hf with
+           | context [match ?x with _ => _ end] => is_var x; destruct x; try discriminate Hf
+           end.
+
+  Ltac goal_split :=
+    repeat (match goal with
+            | |- context [match obind ?a ?k with _ => _ end] => destruct (obind a k)
+            | |- context [match cmp ?a ?b ?c with _ => _ end] => destruct (cmp a b c)
+            | |- context [match Val.binop ?a ?b ?c with _ => _ end] => destruct (Val.binop a b c)
+            | |- context [if ?x then _ else _] => is_var x; destruct x
+            | |- context [match ?x with _ => _ end] => is_var x; destruct x
+            end; cbn).
+
+  Lemma flat_closed f p : flat p = true -> flat (snd (step f p)) = true.
+  Proof.
+    intro Hf. destruct f as [|f]; [exact Hf|]. destruct p; try discriminate Hf.
+    - reflexivity.
+    - destruct sequence as [| |l| |]; try discriminate Hf. destruct repeats as [vrep| | | |]; try discriminate Hf.
+      cbn in Hf. destruct f as [|f]; [exact Hf|]. cbn.
+      destruct (if zlen l =? 0 then Yield true else cmp OGe (VInt rcount) vrep) as [[|]| | | |]; try exact Hf.
+      destruct (py_index l pos) as [a|] eqn:Ei; [|exact Hf].
+      destruct (scalars_index _ _ _ Hf Ei) as [v ->]. cbn. rewrite (py_index_update _ _ _ Ei).
+      destruct (pos + 1 >=? zlen l); exact Hf.
+    - cbn in Hf. flat_shape Hf. destruct f; cbn; goal_split; reflexivity.
+    - cbn in Hf. flat_shape Hf. destruct f; cbn; goal_split; reflexivity.
+    - cbn in Hf. flat_shape Hf. destruct f; cbn; goal_split; reflexivity.
+    - cbn in Hf. flat_shape Hf. destruct f; cbn; goal_split; reflexivity.
+  Qed.
+
+  Ltac goal_split2 :=
+    cbv beta iota zeta;
+    repeat (match goal with
+            | |- context [match obind ?a ?k with _ => _ end] => destruct (obind a k)
+            | |- context [match cmp ?a ?b ?c with _ => _ end] => destruct (cmp a b c)
+            | |- context [match Val.binop ?a ?b ?c with _ => _ end] => destruct (Val.binop a b c)
+            | |- context [if ?x then _ else _] => is_var x; destruct x
+            | |- context [match ?x with _ => _ end] => is_var x; destruct x
+            end; cbv beta iota zeta).
+
+  Lemma flat_reset_step f f' p : flat p = true -> reset f (snd (step f' p)) = reset f p.
+  Proof.
+    intro Hf. destruct f' as [|f']; [reflexivity|]. destruct f as [|f]; [reflexivity|]. destruct p; try discriminate Hf.
+    - reflexivity.
+    - apply leaf_reset_step. exact Hf.
+    - cbn in Hf. flat_shape Hf. rewrite step_series_eq. destruct f'; [reflexivity|]. rewrite !value_scalar. goal_split2; reflexivity.
+    - cbn in Hf. flat_shape Hf. rewrite step_range_eq. destruct f'; [reflexivity|]. rewrite !value_scalar. goal_split2; reflexivity.
+    - cbn in Hf. flat_shape Hf. rewrite step_geom_eq. destruct f'; [goal_split2; reflexivity|]. rewrite !value_scalar. goal_split2; reflexivity.
+    - cbn in Hf. flat_shape Hf. rewrite step_impulse_eq. destruct f'; [reflexivity|]. rewrite !value_scalar. goal_split2; reflexivity.
+  Qed.
+
+  (** reset() of such an object is again one, and resetting it again changes nothing *)
+  Lemma flat_reset_reset f1 p q : flat p = true -> reset f1 p = Yield q ->
+    flat q = true /\ forall f0, reset f0 q = reset f0 p.
+  Proof.
+    intros Hf H. destruct f1 as [|f1]; [discriminate|]. destruct p; try discriminate Hf.
+    - inversion H; subst. split; [reflexivity|reflexivity].
+    - destruct sequence as [| |l| |]; try discriminate Hf. destruct repeats as [vrep| | | |]; try discriminate Hf.
+      cbn in Hf. cbn in H. rewrite (mapM_reset_scalars _ _ Hf) in H. cbn in H. inversion H; subst.
+      split; [exact Hf|]. intros [|f0]; [reflexivity|]. cbn. rewrite (mapM_reset_scalars _ _ Hf). reflexivity.
+    - cbn in Hf. flat_shape Hf. cbn in H. inversion H; subst. split; [reflexivity|]. intros [|f0]; reflexivity.
+    - cbn in Hf. flat_shape Hf. cbn in H. inversion H; subst. split; [reflexivity|]. intros [|f0]; reflexivity.
+    - cbn in Hf. flat_shape Hf. cbn in H. inversion H; subst. split; [reflexivity|]. intros [|f0]; reflexivity.
+    - cbn in Hf. flat_shape Hf. cbn in H. inversion H; subst. split; [reflexivity|]. intros [|f0]; reflexivity.
+  Qed.
+
+  Lemma step_preset_eq f pattern trigger :
+    step (S f) (PReset pattern trigger) =
+      (let '(ot, trigger') := anext f trigger in
+          match ot with
+          | Yield vt =>
+              match (if is_none vt then Yield false else cmp OGt vt (VInt 0)) with
+              | Yield fire =>
+                  let opat := if fire then areset_strict binop LMAX f pattern else Yield pattern in
+                  match opat with
+                  | Yield pattern1 =>
+                      let '(o, pattern2) := anext f pattern1 in
+                      (o, PReset pattern2 trigger')
+                  | o => (ocast o, PReset pattern trigger')
+                  end
+              | oc => (ocast oc, PReset pattern trigger')
+              end
+          | _ => (ot, PReset pattern trigger')
+          end).
+  Proof. reflexivity. Qed.
+
+  Lemma reset_preset_eq f p t : reset (S f) (PReset p t) = fld f p (fun p' => fld f t (fun t' => Yield (PReset p' t'))).
+  Proof. reflexivity. Qed.
+
+  Lemma areset_strict_pattern f p : areset_strict binop LMAX (S f) (AP p) = omap AP (reset f p).
+  Proof. reflexivity. Qed.
+
+  (** one next() of PReset over such an object: the object inside is again one, with the same reset() *)
+  Lemma preset_step f p t : flat p = true ->
+    exists o p', step (S f) (PReset (AP p) t) = (o, PReset (AP p') (snd (anext f t))) /\
+                 flat p' = true /\ forall f0, reset f0 p' = reset f0 p.
+  Proof.
+    intro Hf. rewrite step_preset_eq. destruct (anext f t) as [ot t']. cbn [snd].
+    assert (Same : forall o : outcome val, exists o' p', (o, PReset (AP p) t') = (o', PReset (AP p') t') /\
+                     flat p' = true /\ forall f0, reset f0 p' = reset f0 p) by (intro o; exists o, p; auto).
+    assert (Polled : forall q, flat q = true -> (forall f0, reset f0 q = reset f0 p) ->
+              exists o' p', (let '(o, pattern2) := anext f (AP q) in (o, PReset pattern2 t')) = (o', PReset (AP p') t') /\
+                     flat p' = true /\ forall f0, reset f0 p' = reset f0 p).
+    { intros q Fq Rq. destruct f as [|f'']; [exists OutOfFuel, q; auto|]. rewrite anext_pattern.
+      pose proof (flat_closed f'' q Fq) as Fq'. pose proof (fun f0 => flat_reset_step f0 f'' q Fq) as Rq'.
+      destruct (step f'' q) as [o q']. cbn [snd] in *. exists o, q'. split; [reflexivity|]. split; [exact Fq'|].
+      intro f0. rewrite Rq'. apply Rq. }
+    destruct ot as [vt| | | |]; try apply Same.
+    destruct (if is_none vt then Yield false else cmp OGt vt (VInt 0)) as [[|]| | | |]; try apply Same; cbv zeta.
+    - destruct f as [|f'']; [apply Same|]. rewrite areset_strict_pattern. destruct (reset f'' p) as [q| | | |] eqn:R; cbn [omap obind]; try apply Same.
+      destruct (flat_reset_reset _ _ _ Hf R) as [Fq Rq]. apply Polled; assumption.
+    - apply Polled; [exact Hf|reflexivity].
+  Qed.
+
   (** ** the reset fragment: any nesting of the operator / unary / stutter / counter / pad classes over leaves *)
   Inductive rpat : pat -> Prop :=
   | RP_leaf p : leaf_reset p = true -> rpat p
@@ -180,9 +579,129 @@ Section Reset.
   | RP_pad p l c : rarg p -> rpat (PPad p l c)
   | RP_padm p m mp c pc : rarg p -> rpat (PPadToMultiple p m mp c pc)
   | RP_stutter p c cc pos v : rarg p -> rarg c -> rpat (PStutter p c cc pos v)
+  (* leaf classes with scalar or pattern parameters *)
+  | RP_series start v stp length count : rarg stp -> rarg length -> rpat (PSeries start v stp length count)
+  | RP_range start end_ stp v : rarg end_ -> rarg stp -> rpat (PRange start end_ stp v)
+  | RP_geom start v m length count : rarg m -> rpat (PGeom start v m length count)
+  | RP_impulse period pos : rarg period -> rpat (PImpulse period pos)
+  (* buffering classes *)
+  | RP_loop p count pos li ra values : rarg p -> rpat (PLoop p count pos li ra values)
+  | RP_pingpong p count values pos dir rpos : rpat (PPingPong p count values pos dir rpos)   (* any input: next() never touches it *)
+  | RP_reverse input values : rpat (PReverse input values)                                   (* likewise *)
+  | RP_changed source current : rarg source -> rpat (PChanged source current)
+  | RP_diff source current : rarg source -> rpat (PDiff source current)
+  | RP_collapse input : rarg input -> rpat (PCollapse input)
+  | RP_norepeats input v : rarg input -> rpat (PNoRepeats input v)
+  | RP_subsequence p offset length pos values : rarg p -> rarg offset -> rarg length -> rpat (PSubsequence p offset length pos values)
+  | RP_wrap p mn mx : rarg p -> rpat (PWrap p mn mx)
+  | RP_ref p : rarg p -> rpat (PRef p)
+  (* PReset over a class whose state is counters only (scalar parameters), any trigger of the fragment *)
+  | RP_reset p t : flat p = true -> rarg t -> rpat (PReset (AP p) t)
   with rarg : arg -> Prop :=
   | RA_val v : rarg (AV v)
   | RA_pat p : rpat p -> rarg (AP p).
+
+  Lemma flat_rpat p : flat p = true -> rpat p.
+  Proof.
+    intro Hf. destruct p; try discriminate Hf.
+    - apply RP_leaf. reflexivity.
+    - apply RP_leaf. exact Hf.
+    - cbn in Hf. flat_shape Hf. apply RP_series; apply RA_val.
+    - cbn in Hf. flat_shape Hf. apply RP_range; apply RA_val.
+    - cbn in Hf. flat_shape Hf. apply RP_geom; apply RA_val.
+    - cbn in Hf. flat_shape Hf. apply RP_impulse; apply RA_val.
+  Qed.
+
+  (** ** the fragment is closed under next() (shape preservation) *)
+  Lemma leaf_closed f p : leaf_reset p = true -> leaf_reset (snd (step f p)) = true.
+  Proof.
+    intro Hl. destruct f as [|f]; [exact Hl|].
+    destruct p; try discriminate Hl.
+    - reflexivity.
+    - destruct sequence as [| |l| |]; try discriminate Hl. destruct repeats as [vrep| | | |]; try discriminate Hl.
+      cbn in Hl. destruct f as [|f]; [exact Hl|]. cbn.
+      destruct (if zlen l =? 0 then Yield true else cmp OGe (VInt rcount) vrep) as [[|]| | | |]; try exact Hl.
+      destruct (py_index l pos) as [a|] eqn:Ei; [|exact Hl].
+      destruct (scalars_index _ _ _ Hl Ei) as [v ->]. cbn. rewrite (py_index_update _ _ _ Ei).
+      destruct (pos + 1 >=? zlen l); exact Hl.
+  Qed.
+
+  Lemma pull_until_inv (P : arg -> Prop) g : (forall a, P a -> P (snd (g a))) ->
+    forall n pattern values target, P pattern -> P (snd (pull_until g n pattern values target)).
+  Proof.
+    intros Hg n. induction n as [|n IH]; intros pattern values target HP.
+    - cbn. destruct (Z.of_nat (List.length values) <=? target); exact HP.
+    - cbn [pull_until]. destruct (Z.of_nat (List.length values) <=? target); [|exact HP].
+      pose proof (Hg pattern HP) as K. destruct (g pattern) as [o pattern']. cbn [snd] in K.
+      destruct o; try exact K. apply IH. exact K.
+  Qed.
+
+  Ltac closed_case IHs IHv IHn :=
+    cbv zeta;
+    repeat match goal with
+           | PU : forall values target, rarg (snd (pull_until ?g ?n ?p values target)) |- context [pull_until ?g ?n ?p ?v ?t] =>
+               let K := fresh "K" in pose proof (PU v t) as K; destruct (pull_until g n p v t) as [[? ?] ?]; cbn [snd] in K
+           | H : rarg ?a |- context [value ?f ?a] =>
+               let K := fresh "K" in pose proof (IHv a H) as K; destruct (value f a) as [? ?]; cbn [snd] in K
+           | H : rarg ?a |- context [anext ?f ?a] =>
+               let K := fresh "K" in pose proof (IHn a H) as K; destruct (anext f a) as [? ?]; cbn [snd] in K
+           | |- context [if ?x then _ else _] => is_var x; destruct x
+           | |- context [match ?x with _ => _ end] => is_var x; destruct x
+           | |- context [if ?x then _ else _] => destruct x
+           | |- context [match ?x with _ => _ end] => destruct x
+           | _ => progress (cbv beta iota zeta)
+           end;
+    cbv beta iota zeta delta [snd]; first [constructor; assumption | apply IHs; constructor; assumption].
+
+  Theorem rpat_closed : forall f,
+    (forall p, rpat p -> rpat (snd (step f p))) /\
+    (forall a, rarg a -> rarg (snd (value f a))) /\
+    (forall a, rarg a -> rarg (snd (anext f a))).
+  Proof.
+    induction f as [|f [IHs [IHv IHn]]].
+    - repeat split; intros; assumption.
+    - split; [|split].
+      + intros p Hp. inversion Hp; subst.
+        * apply RP_leaf. apply leaf_closed. assumption.
+        * rewrite step_abs_eq. closed_case IHs IHv IHn.
+        * rewrite step_int_eq. closed_case IHs IHv IHn.
+        * rewrite step_binop_eq. closed_case IHs IHv IHn.
+        * rewrite step_and_eq. closed_case IHs IHv IHn.
+        * rewrite step_skipif_eq. closed_case IHs IHv IHn.
+        * rewrite step_counter_eq. closed_case IHs IHv IHn.
+        * rewrite step_pad_eq. closed_case IHs IHv IHn.
+        * rewrite step_padm_eq. closed_case IHs IHv IHn.
+        * rewrite step_stutter_eq. closed_case IHs IHv IHn.
+        * rewrite step_series_eq. closed_case IHs IHv IHn.
+        * rewrite step_range_eq. closed_case IHs IHv IHn.
+        * rewrite step_geom_eq. closed_case IHs IHv IHn.
+        * rewrite step_impulse_eq. closed_case IHs IHv IHn.
+        * rewrite step_loop_eq. destruct ra; closed_case IHs IHv IHn.
+        * rewrite step_pingpong_eq. closed_case IHs IHv IHn.
+        * rewrite step_reverse_eq. closed_case IHs IHv IHn.
+        * rewrite step_changed_eq. closed_case IHs IHv IHn.
+        * rewrite step_diff_eq. closed_case IHs IHv IHn.
+        * rewrite step_collapse_eq. closed_case IHs IHv IHn.
+        * rewrite step_norepeats_eq. closed_case IHs IHv IHn.
+        * rewrite step_subsequence_eq.
+          pose proof (fun values target => pull_until_inv rarg (anext f) IHn f p0 values target H) as PU.
+          closed_case IHs IHv IHn.
+        * rewrite step_wrap_eq. closed_case IHs IHv IHn.
+        * rewrite step_anyref_eq. closed_case IHs IHv IHn.
+        * destruct (preset_step f p0 t H) as [o [p' [E [Fp' _]]]]. rewrite E. cbn [snd].
+          apply RP_reset; [exact Fp'|apply IHn; assumption].
+      + intros a [v|p Hp]; [exact (RA_val v)|]. rewrite value_pattern. pose proof (IHs p Hp) as K.
+        destruct (step f p). apply RA_pat. exact K.
+      + intros a [v|p Hp]; [exact (RA_val v)|]. rewrite anext_pattern. pose proof (IHs p Hp) as K.
+        destruct (step f p). apply RA_pat. exact K.
+  Qed.
+
+  Lemma rpat_step_closed f p : rpat p -> rpat (snd (step f p)).
+  Proof. apply rpat_closed. Qed.
+  Lemma rarg_value_closed f a : rarg a -> rarg (snd (value f a)).
+  Proof. apply rpat_closed. Qed.
+  Lemma rarg_anext_closed f a : rarg a -> rarg (snd (anext f a)).
+  Proof. apply rpat_closed. Qed.
 
   Section Step.
     Variable f0 : nat.
@@ -199,6 +718,38 @@ Section Reset.
       intros [v|p Hp]; (destruct f' as [|f']; [reflexivity|]); [reflexivity|].
       rewrite anext_pattern. pose proof (IH f' p Hp) as E. destruct (step f' p) as [o p']. cbn in *. rewrite E. reflexivity.
     Qed.
+
+    (** classes whose next() calls itself or polls its input several times *)
+    Lemma collapse_reset_step : forall f' input, rarg input ->
+      reset (S f0) (snd (step f' (PCollapse input))) = reset (S f0) (PCollapse input).
+    Proof.
+      induction f' as [|f' IHf]; intros input H; [reflexivity|].
+      rewrite step_collapse_eq. pose proof (arg_value f' input H) as A. pose proof (rarg_value_closed f' input H) as C.
+      destruct (value f' input) as [o i']. cbn [snd] in A, C.
+      destruct o as [[]| | | |]; cbv beta iota; try (cbn [snd]; rewrite !reset_collapse_eq, A; reflexivity).
+      rewrite (IHf _ C). rewrite !reset_collapse_eq, A. reflexivity.
+    Qed.
+
+    Lemma norepeats_reset_step : forall f' input v, rarg input ->
+      reset (S f0) (snd (step f' (PNoRepeats input v))) = reset (S f0) (PNoRepeats input v).
+    Proof.
+      induction f' as [|f' IHf]; intros input v H; [reflexivity|].
+      rewrite step_norepeats_eq. pose proof (arg_value f' input H) as A. pose proof (rarg_value_closed f' input H) as C.
+      destruct (value f' input) as [o i']. cbn [snd] in A, C.
+      destruct o as [rv| | | |]; cbv beta iota; try (cbn [snd]; rewrite !reset_norepeats_eq, A; reflexivity).
+      destruct (py_eq rv v || py_eq rv (VInt MAXSIZE)).
+      - rewrite (IHf _ _ C). rewrite !reset_norepeats_eq, A. reflexivity.
+      - cbn [snd]. rewrite !reset_norepeats_eq, A. reflexivity.
+    Qed.
+
+    Lemma pull_until_reset f' n pattern values target : rarg pattern ->
+      reset_field (reset f0) (snd (pull_until (anext f') n pattern values target)) = reset_field (reset f0) pattern.
+    Proof.
+      intro H.
+      apply (pull_until_inv (fun a => rarg a /\ reset_field (reset f0) a = reset_field (reset f0) pattern) (anext f')).
+      - intros a [Ha Ea]. split; [apply rarg_anext_closed; exact Ha|]. rewrite arg_anext by exact Ha. exact Ea.
+      - split; [exact H|reflexivity].
+    Qed.
   End Step.
 
   Ltac split_matches :=
@@ -206,6 +757,25 @@ Section Reset.
            | |- context [match ?x with _ => _ end] => destruct x
            | |- context [if ?x then _ else _] => destruct x
            end.
+
+  Ltac reset_case f0 IH eqn :=
+    cbv zeta;
+    repeat match goal with
+           | PU : forall values target, reset_field _ (snd (pull_until ?g ?n ?p values target)) = _ |- context [pull_until ?g ?n ?p ?v ?t] =>
+               let A := fresh "A" in pose proof (PU v t) as A; destruct (pull_until g n p v t) as [[? ?] ?]; cbn [snd] in A
+           | H : rarg ?a |- context [value ?f ?a] =>
+               let A := fresh "A" in pose proof (arg_value f0 IH f a H) as A; destruct (value f a) as [? ?]; cbn [snd] in A
+           | H : rarg ?a |- context [anext ?f ?a] =>
+               let A := fresh "A" in pose proof (arg_anext f0 IH f a H) as A; destruct (anext f a) as [? ?]; cbn [snd] in A
+           | |- context [if ?x then _ else _] => is_var x; destruct x
+           | |- context [match ?x with _ => _ end] => is_var x; destruct x
+           | |- context [if ?x then _ else _] => destruct x
+           | |- context [match ?x with _ => _ end] => destruct x
+           | _ => progress (cbv beta iota zeta)
+           end;
+    cbv beta iota zeta delta [snd]; rewrite !eqn;
+    repeat match goal with A : reset_field _ _ = reset_field _ _ |- _ => try rewrite A; clear A end;
+    reflexivity.
 
   Theorem reset_step : forall f f' p, rpat p -> reset f (snd (step f' p)) = reset f p.
   Proof.
@@ -236,9 +806,37 @@ Section Reset.
       destruct (cmp OGe (VInt pos) cc) as [[|]| | | |]; cbn [snd]; try reflexivity.
       destruct (value f' c) as [oc c']. cbn in B. destruct oc; cbn [snd]; rewrite ?reset_stutter_eq, ?B; try reflexivity.
       destruct (anext f' p0) as [o t']. cbn in A. destruct o; cbn [snd]; rewrite !reset_stutter_eq, A, ?B; reflexivity.
+    - rewrite step_series_eq. reset_case f0 IH reset_series_eq.
+    - rewrite step_range_eq. reset_case f0 IH reset_range_eq.
+    - rewrite step_geom_eq. reset_case f0 IH reset_geom_eq.
+    - rewrite step_impulse_eq. reset_case f0 IH reset_impulse_eq.
+    - rewrite step_loop_eq. reset_case f0 IH reset_loop_eq.
+    - rewrite step_pingpong_eq. cbv zeta. split_matches; cbn [snd]; apply reset_pingpong_any.
+    - rewrite step_reverse_eq. destruct values; cbn [snd]; apply reset_reverse_any.
+    - rewrite step_changed_eq. reset_case f0 IH reset_changed_eq.
+    - rewrite step_diff_eq. reset_case f0 IH reset_diff_eq.
+    - apply collapse_reset_step; assumption.
+    - apply norepeats_reset_step; assumption.
+    - rewrite step_subsequence_eq.
+      pose proof (fun values target => pull_until_reset f0 IH f' f' p0 values target H) as PU.
+      reset_case f0 IH reset_subsequence_eq.
+    - rewrite step_wrap_eq. reset_case f0 IH reset_wrap_eq.
+    - rewrite step_anyref_eq. reset_case f0 IH reset_ref_eq.
+    - destruct (preset_step f' p0 t H) as [o [p' [E [_ Rp']]]]. rewrite E. cbn [snd].
+      rewrite !reset_preset_eq. cbn [reset_field]. rewrite Rp', (arg_anext f0 IH f' t H0). reflexivity.
   Qed.
 
   (** ** after any history: k calls of next() (each with any outcome), then reset() *)
   Fixpoint run (f' : nat) (k : nat) (p : pat) : pat :=
     match k with O => p | S k' => run f' k' (snd (step f' p)) end.
+
+  (** any history stays in the fragment, and reset() after it is reset() of the untouched object *)
+  Lemma run_closed f' k : forall p, rpat p -> rpat (run f' k p).
+  Proof. induction k as [|k IH]; intros p H; [exact H|]. cbn [run]. apply IH. apply rpat_step_closed. exact H. Qed.
+
+  Lemma reset_run f f' k : forall p, rpat p -> reset f (run f' k p) = reset f p.
+  Proof.
+    induction k as [|k IH]; intros p H; [reflexivity|]. cbn [run].
+    rewrite IH by (apply rpat_step_closed; exact H). apply reset_step. exact H.
+  Qed.
 End Reset.
